@@ -277,7 +277,9 @@ func (m *MemoryBackend) Subscribe(client *Client, subs []packet.Subscription, ac
 	sess := client.Session().(*memorySession)
 
 	// save subscription
-	for _, sub := range subs {
+	for i := range subs {
+		// store a copy per subscription (the loop variable is shared)
+		sub := subs[i]
 		sess.subscriptions.Set(sub.Topic, &sub)
 	}
 
